@@ -247,7 +247,7 @@ def rule_to_v1(ctx):
                     if any(r is x for s in n.body for x in ast.walk(s)):
                         targets.append((_resolve_class(prog, f, r.value.func.value), r))
             branches.append((b, targets, n))
-    ctx.floor("F6-to_v1", "isinstance branches", len(branches), 8)
+    ctx.floor("F6-to_v1", "isinstance branches", len(branches), 5)
     for b, targets, node in branches:
         ctx.require(b is not None, "F6-to_v1", f.qname, f"guard class not resolved: {norm(node.test)}")
         for x, r in targets:
